@@ -15,19 +15,19 @@ func init() {
 	register(&Rule{ID: "C12.R1", Min: 3,
 		Text: "the logarithm constants are right: every digit of the strLn10 and strInvLn10 literals equals ln 10 and 1/ln 10 computed independently inside the checker (Machin-like atanh series on big integers, 60 guard digits); the precision table is built at 1,2,4,… digits in order",
 		Run:  ruleLogConstants})
-	register(&Rule{ID: "C15.R1", Min: 2,
+	register(&Rule{ID: "C15.R1", Min: 1,
 		Text: "the Form constants are ordered Finite < Infinite < NaNSignaling < NaN (CmpTotal's cmpOrder relies on it) and cmpOrder negates for negative values",
 		Run:  ruleFormOrder})
-	register(&Rule{ID: "C13.R1", Min: 5,
+	register(&Rule{ID: "C13.R1", Min: 3,
 		Text: "writer/reader token agreement: each special name the formatter emits (after the parser's own lower-casing) is accepted by the parser and maps back to the same Form; the exponent marker and sign bytes written are the ones the parser consumes, and the sign is consumed before the form dispatch",
 		Run:  ruleTokenAgreement})
-	register(&Rule{ID: "C13.R2", Min: 4,
+	register(&Rule{ID: "C13.R2", Min: 3,
 		Text: "Compose/Decompose agree on the form byte (Finite↔0, Infinite↔1, NaN*↔2), and the finite case carries Negative, Exponent and the coefficient bytes both ways",
 		Run:  ruleComposeDecompose})
-	register(&Rule{ID: "C13.R3", Min: 2,
+	register(&Rule{ID: "C13.R3", Min: 1,
 		Text: "float path: SetFloat64 formats with strconv.AppendFloat(·, f, 'E'|'e', -1, 64) (shortest round-tripping digits) and parses with the package's own parser; Float64 parses String() with ParseFloat(·, 64)",
 		Run:  ruleFloatPath})
-	register(&Rule{ID: "C13.R4", Min: 5,
+	register(&Rule{ID: "C13.R4", Min: 3,
 		Text: "one formatter: String, Text, MarshalText, Value and Format all reach Decimal.Append; Format maps v,s→'G' and F→'f'",
 		Run:  ruleOneFormatter})
 }
